@@ -271,17 +271,28 @@ theorem visible_effectsOf_mode (acts : List Action) :
   | nil => rfl
   | cons a rest ih =>
     cases a <;>
-      simp_all [effectsOf, visibleOf, Action.requiresWALFlush, Effect.visible, List.filter]
+      simp_all [effectsOf, visibleOf, Action.requiresWALFlush, Effect.observable, List.filter]
 
 theorem votesOf_visibleOf (es : List Effect) : votesOf (visibleOf es) = votesOf es := by
   induction es with
   | nil => rfl
   | cons x es ih =>
     simp only [votesOf, visibleOf] at ih ⊢
-    cases x <;> simp [Effect.visible, Effect.vote?, List.filter, List.filterMap, ih]
+    cases x <;> simp [Effect.observable, Effect.vote?, List.filter, List.filterMap, ih]
 
 theorem votes_effectsOf_mode (acts : List Action) :
     votesOf (effectsOf false acts) = votesOf (effectsOf true acts) := by
   rw [← votesOf_visibleOf, visible_effectsOf_mode, votesOf_visibleOf]
+
+theorem timersOf_visibleOf (es : List Effect) : timersOf (visibleOf es) = timersOf es := by
+  induction es with
+  | nil => rfl
+  | cons x es ih =>
+    simp only [timersOf, visibleOf] at ih ⊢
+    cases x <;> simp [Effect.observable, Effect.timer?, List.filter, List.filterMap, ih]
+
+theorem timers_effectsOf_mode (acts : List Action) :
+    timersOf (effectsOf false acts) = timersOf (effectsOf true acts) := by
+  rw [← timersOf_visibleOf, visible_effectsOf_mode, timersOf_visibleOf]
 
 end Juno.C13
